@@ -167,7 +167,21 @@ def check_lim(eng, run):
                 if isinstance(v, ast.Subscript) and isinstance(v.slice, ast.Slice) and dotted(v.slice.lower) in seplens and v.slice.upper is None:
                     fast = True
     consumed = next((a.arg for a in fn.params() if "consumed" in a.arg), "consumed")
-    start = any(isinstance(n, ast.Subscript) and isinstance(n.slice, ast.Slice) and dotted(n.slice.lower) == consumed and n.slice.upper is None for n, o in nodes if o is fn)
+    def consumed_in(o):  # the name that holds `consumed` in owner o: the constructor's parameter, or the helper's parameter bound to it
+        if o is fn:
+            return consumed
+        for c, oc in nodes:
+            if isinstance(c, ast.Call) and oc is fn and (dotted(c.func) or "").split(".")[-1] == o.name:
+                ps = [a.arg for a in o.params()]
+                for i, a in enumerate(c.args):
+                    if dotted(a) == consumed and i < len(ps):
+                        return ps[i]
+                for k in c.keywords:
+                    if dotted(k.value) == consumed:
+                        return k.arg
+        return None
+
+    start = any(isinstance(n, ast.Subscript) and isinstance(n.slice, ast.Slice) and n.slice.lower is not None and dotted(n.slice.lower) == consumed_in(o) and n.slice.upper is None for n, o in nodes)
     if not (fast and start):
         run.finding("C02.lim", fn, fn.node, "LimitOverrunError no longer computes its remainder as buffer[consumed:] minus exactly one leading separator")
     run.ob("C02.lim", f"{fn.short}:remainder-from-consumed", fast and start)
@@ -281,21 +295,22 @@ def run(eng, run):
     from sa.anchors import verify as _verify_anchor_names
     _verify_anchor_names(eng, run)
     run.not_decided += NOT_DECIDED
-    check_frames_decoded(eng, run)
-    check_bound(eng, run)
-    check_keep(eng, run)
-    check_lim(eng, run)
-    check_one_error(eng, run)
+    run.attempt(check_frames_decoded, eng, run)
+    run.attempt(check_bound, eng, run)
+    run.attempt(check_keep, eng, run)
+    run.attempt(check_lim, eng, run)
+    run.attempt(check_one_error, eng, run)
     from rules import c01, c10
-    c01.check_consume_once(eng, run, rule="C02.keep")
+    run.attempt(c01.check_consume_once, eng, run, rule="C02.keep")
     from sa.report import RuleAlias
-    c01.check_scan(eng, RuleAlias(run, "C02.scan"))  # 'two independent separator scanners must agree' (shape facts of C01.scan)
-    c01.check_json_close(eng, run, rule="C02.err")
-    c01.check_esc(eng, RuleAlias(run, "C02.scan"))  # a mis-read escape ends a string early: a valid frame becomes an error and the next ones are swallowed
+    run.attempt(c01.check_scan, eng, RuleAlias(run, "C02.scan"))  # 'two independent separator scanners must agree' (shape facts of C01.scan)
+    run.attempt(c01.check_json_close, eng, run, rule="C02.err")
+    run.attempt(c01.check_esc, eng, RuleAlias(run, "C02.scan"))  # a mis-read escape ends a string early: a valid frame becomes an error and the next ones are swallowed
     from rules import c07
-    c07.check_fixed(eng, RuleAlias(run, "C02.lim"))  # the buffered path's limit is the buffer's length: both paths must enforce the configured one
-    c10.check_conservation(eng, run, rule="C02.bound")
-    c10.check_raw_buffer_reads(eng, run, rule="C02.bound")
+    run.attempt(c07.check_fixed, eng, RuleAlias(run, "C02.lim"))  # the buffered path's limit is the buffer's length: both paths must enforce the configured one
+    run.attempt(c10.check_conservation, eng, run, rule="C02.bound")
+    run.attempt(c10.check_raw_buffer_reads, eng, run, rule="C02.bound")
+    run.end_of_rules()
 
 
 # ---------------------------------------------------------------------------------------------- self-test corpus
